@@ -65,11 +65,11 @@ Report(id, ok) == ok \/ PrintT(<<"VIOLATION", id, Last.hid, Last.step>>)
 InvC02 == IsRun => Report("C02", C02(pre, Last))
 InvC03 == IsRun => Report("C03", C03(pre, Last))
 InvC04 == (IsRun => Report("C04", C04(pre, Last))) /\ (IsObs => Report("C04", C04obs(Last)))
-InvC05 == IsRun => Report("C05", C05(pre, st, Last))
+InvC05 == IsRun => Report("C05", C05(pre, st, Last) /\ C05answered(pre, Last))
 InvC06 == IsRun => Report("C06", C06(pre, st, Last))
 InvC07 == IsRun => Report("C07", C07(pre, Last))
 InvC08 == IsObs => Report("C08", C08(Last))
-InvC09 == IsRun => Report("C09", C09(pre, Last))
+InvC09 == (IsRun => Report("C09", C09(pre, Last))) /\ (IsObs => Report("C09", C09obs(st, Last)))
 InvC10 == (IsRun => Report("C10", C10(pre, Last))) /\ (IsObs => Report("C10", C10obs(Last)))
 \* C16 / C17 / C19a: every request a host received is one the sequential reading makes (as bags, per peer),
 \* with the same peer, service, function, argument values (C16) and tetraplets (C17)
